@@ -1,7 +1,10 @@
 use crate::channel::{ReceiverChannel, SenderChannel};
 use crate::store_impl::ActionOp;
 use crate::{Subscriber, Subscription};
+#[cfg(not(rs_store_verif))]
 use std::sync::Mutex;
+#[cfg(rs_store_verif)]
+use verif_rt::sync::Mutex;
 
 pub(crate) struct StateIteratorSubscriber<T>
 where
